@@ -20,6 +20,9 @@ if-statements: a branch either always returns (then the rest is the else-continu
 assigns are merged: `let v := if c then .. else .. in`); anything else is out of grammar.
 Loops: the variables assigned by the body are the loop state; the body is lambda-lifted into a top-level per-index step Definition
 (captured variables become parameters), the loop is `fold_left step <index list> state`.
+Strictness (DESIGN §9.4): a using-declaration must be one the client lists (Hooks.known_usings); the tokens of a throw expression
+are checked (exception type, literals, names, + ( ) , .); a statement after return / throw / `while (true)` / an if whose branches
+both return (unreachable code) is out of grammar.
 Everything else raises OutOfGrammar.  Deterministic, python3 stdlib only."""
 import re, unicodedata
 from fractions import Fraction
